@@ -1,6 +1,6 @@
 (* Properties/C03.v — gradual performance equals performance of the partial play. *)
 From Coq Require Import ZArith List Bool.
-From V Require Import F64 Gradual GradualProofs GradPerf GradPerfProofs TaikoProofs.
+From V Require Import Tables F64 Gradual GradualProofs GradPerf GradPerfProofs TaikoProofs.
 Import ListNotations.
 Open Scope Z_scope.
 
@@ -76,3 +76,10 @@ Example C03_example :
            (osu_new (list Z) [] [OCircle; OSlider 2 1; OSpinner])
   = [GLen 3; GSome ([1; 0; 0; 0; 1], 1, 7); GSome ([1; 1; 1; 1; 5], 3, 8); GNone; GLen 0].
 Proof. vm_compute. reflexivity. Qed.
+
+(* the theorems above take ONE initial skill state for the gradual and the one-shot calculation; in the
+   source both constructors build their skills from the same values, in the same order (re-read on
+   every run: skill constructor calls of all four modes, catcher-width correction before its uses) *)
+Theorem C03_setup_facts_now : forallb snd Tables.setup_facts = true /\ (4 <= length Tables.setup_facts)%nat.
+Proof. exact tables_setup_facts. Qed.
+Print Assumptions C03_setup_facts_now.
